@@ -10,6 +10,11 @@
 (* Abstract layer: Reach - every peer introduced by the (public) introducer "I" to a requester      *)
 (* becomes a mutually verified peer of the requester once the requester has walked to the addresses *)
 (* it learned (after the puncture exchange has drained) ; same-NAT pairs meet on LAN addresses.     *)
+(* Histories: a NAT mapping may be lost (Rebind: router reboot / mapping expiry) while the system   *)
+(* is at rest; the host then shows up under a fresh external port.  A peer that has re-registered   *)
+(* at the introducer since (its request was processed there) must be handed out - and asked to      *)
+(* puncture - at the address it has NOW (HandsOutCurrent, HoldsWorking, Reach with intros.ok).      *)
+(* Long uptimes: every host starts with Lamport clock Clock0; identifiers on the wire are 16 bit.   *)
 EXTENDS Naturals, Sequences, FiniteSets, TLC
 
 CONSTANTS K,             \* candidates B1..BK contact the introducer (exhaustive Init only)
@@ -19,8 +24,13 @@ CONSTANTS K,             \* candidates B1..BK contact the introducer (exhaustive
           APlaces,       \* subset of {"pub", "nat"}
           CandPlaces,    \* subset of {"pub", "nat", "withA", "withI"}
           MaxContactsA, MaxContactsB,
+          MinContacts,   \* every host contacts the introducer at least this often (exhaustive Init only)
           MaxId,         \* bound on datagram ids (exhaustive Next only; exceeding it shows up as a deadlock)
-          QuietCalls     \* TRUE: walk_to / send_introduction_request are only called while no datagram is in flight
+          QuietCalls,    \* TRUE: walk_to / send_introduction_request are only called while no datagram is in flight
+          MaxRebinds,    \* how many NAT mappings may be lost in one behaviour (0: the static network)
+          Clock0,        \* Lamport clock every host starts with (exhaustive Init only): uptime before the scenario
+          Refresh,       \* TRUE: a signed message from a verified peer updates its address (the code). FALSE: control
+          Ident16        \* TRUE: introduction-request identifiers are the clock modulo 2^16 (the code). FALSE: control
 
 Zero     == <<"0.0.0.0", 0>>
 PortBase == 20000
@@ -47,15 +57,19 @@ VARIABLES
   allowed,    \* NAT id -> set of [port, remote]
   net,        \* datagrams in flight
   nsent,      \* datagrams ever transmitted (datagram ids)
+  nports,     \* NAT id -> external ports handed out so far (a lost mapping's port is not used again)
   \* ---- script / history
   contacted,  \* host -> contacts made
   walked,     \* host -> introduced addresses already walked to
-  intros,     \* introductions made by "I":  [req, cand, reqaddr, candaddr]
-  puncAsked   \* puncture requests emitted:  [to, wanw]
+  intros,     \* introductions made by "I":  [req, cand, reqaddr, candaddr, ok, cur]  (ok: cand had registered
+              \*   from its present mapping when it was handed out; cur: where cand was reachable at that moment)
+  puncAsked,  \* puncture requests emitted:  [to, wanw]
+  stale,      \* hosts whose NAT mapping was lost and whose next request has not been processed by "I" yet
+  nrebind     \* mappings lost so far
 
 topo  == <<natOf, kind, sock, extip, priv, walkers, contacts>>
 vars  == <<natOf, kind, sock, extip, priv, walkers, contacts, wan, peers, known, gt, mapping, allowed, net, nsent,
-           contacted, walked, intros, puncAsked>>
+           nports, contacted, walked, intros, puncAsked, stale, nrebind>>
 
 Hosts      == DOMAIN natOf
 Cands      == Hosts \ {"I", "A"}
@@ -78,10 +92,11 @@ InitOverlay ==
   /\ wan = [h \in Hosts |-> sock[h]]          \* EndpointListener.__init__: my_estimated_wan = my_estimated_lan
   /\ peers = [h \in Hosts |-> {}]
   /\ known = [h \in Hosts |-> {}]
-  /\ gt = [h \in Hosts |-> 0]
   /\ mapping = [n \in Nats |-> {}]
   /\ allowed = [n \in Nats |-> {}]
+  /\ nports = [n \in Nats |-> 0]
   /\ net = {} /\ nsent = 0
+  /\ stale = {} /\ nrebind = 0
   /\ contacted = [h \in Hosts |-> 0]
   /\ walked = [h \in Hosts |-> {}]
   /\ intros = {} /\ puncAsked = {}
@@ -90,7 +105,7 @@ Init ==
   LET C  == {Names[i] : i \in 1..K}
       H  == {"I", "A"} \cup C
   IN \E pa \in APlaces, ka \in Kinds, pl \in [C -> CandPlaces], kc \in [C -> Kinds],
-        nA \in 1..MaxContactsA, nB \in [C -> 1..MaxContactsB] :
+        nA \in MinContacts..MaxContactsA, nB \in [C -> MinContacts..MaxContactsB] :
        /\ pa = "pub" => ka = "fullCone"                                  \* canonical value for unused boxes
        /\ \A c \in C : pl[c] # "nat" => kc[c] = "fullCone"
        /\ \A c \in C : pl[c] = "withA" => pa = "nat"
@@ -109,41 +124,43 @@ Init ==
        /\ walkers = IF FollowAll THEN H \ {"I"} ELSE {"A"}
        /\ contacts = [h \in H |-> IF h = "I" THEN 0 ELSE IF h = "A" THEN nA ELSE nB[h]]
   /\ InitOverlay
+  /\ gt = [h \in Hosts |-> Clock0]
 
 (* ------------------------------------- NAT / wire layer --------------------------------------- *)
 \* sending host h, destination dst, current tables -> source address on the wire, path class, new tables
-Out1(h, dst, mp, al) ==
+Out1(h, dst, mp, al, np) ==
   LET n == natOf[h] IN
-  IF n = "-" THEN [src |-> sock[h], via |-> "wan", mp |-> mp, al |-> al]
+  IF n = "-" THEN [src |-> sock[h], via |-> "wan", mp |-> mp, al |-> al, np |-> np]
   ELSE IF \E g \in Hosts : natOf[g] = n /\ sock[g] = dst
-       THEN [src |-> sock[h], via |-> "lan", mp |-> mp, al |-> al]
+       THEN [src |-> sock[h], via |-> "lan", mp |-> mp, al |-> al, np |-> np]
   ELSE IF dst[1] = extip[n]
-       THEN [src |-> sock[h], via |-> "hairpin", mp |-> mp, al |-> al]
+       THEN [src |-> sock[h], via |-> "hairpin", mp |-> mp, al |-> al, np |-> np]
   ELSE LET ex   == {m \in mp[n] : m.int = sock[h]}
-           port == IF ex # {} THEN (CHOOSE m \in ex : TRUE).port ELSE PortBase + Cardinality(mp[n])
+           port == IF ex # {} THEN (CHOOSE m \in ex : TRUE).port ELSE PortBase + np[n]
        IN [src |-> <<extip[n], port>>, via |-> "wan",
            mp  |-> [mp EXCEPT ![n] = @ \cup {[int |-> sock[h], port |-> port]}],
-           al  |-> [al EXCEPT ![n] = @ \cup {[port |-> port, remote |-> dst]}]]
+           al  |-> [al EXCEPT ![n] = @ \cup {[port |-> port, remote |-> dst]}],
+           np  |-> IF ex # {} THEN np ELSE [np EXCEPT ![n] = @ + 1]]
 
 Msg(dst, knd, ns, dest, slan, swan, ilan, iwan, ins, ident) ==
   [dst |-> dst, kind |-> knd, ns |-> ns, dest |-> dest, slan |-> slan, swan |-> swan, ilan |-> ilan,
    iwan |-> iwan, ins |-> ins, ident |-> ident]
 
-RECURSIVE Xmit(_, _, _, _, _, _)
-\* -> [mp, al, pkts]
-Xmit(h, msgs, i, mp, al, acc) ==
-  IF i > Len(msgs) THEN [mp |-> mp, al |-> al, pkts |-> acc]
+RECURSIVE Xmit(_, _, _, _, _, _, _)
+\* -> [mp, al, np, pkts]
+Xmit(h, msgs, i, mp, al, np, acc) ==
+  IF i > Len(msgs) THEN [mp |-> mp, al |-> al, np |-> np, pkts |-> acc]
   ELSE LET m == msgs[i]
-           o == Out1(h, m.dst, mp, al)
+           o == Out1(h, m.dst, mp, al, np)
            p == [id |-> nsent + i, from |-> h, src |-> o.src, via |-> o.via, dst |-> m.dst, kind |-> m.kind,
                  ns |-> m.ns, dest |-> m.dest, slan |-> m.slan, swan |-> m.swan, ilan |-> m.ilan,
                  iwan |-> m.iwan, ins |-> m.ins, ident |-> m.ident]
-       IN Xmit(h, msgs, i + 1, o.mp, o.al, acc \cup {p})
+       IN Xmit(h, msgs, i + 1, o.mp, o.al, o.np, acc \cup {p})
 
 \* the effect of host h transmitting msgs while datagram `consumed` (or none) leaves the wire
 Transmit(h, msgs, consumed) ==
-  LET x == Xmit(h, msgs, 1, mapping, allowed, {}) IN
-  /\ mapping' = x.mp /\ allowed' = x.al
+  LET x == Xmit(h, msgs, 1, mapping, allowed, nports, {}) IN
+  /\ mapping' = x.mp /\ allowed' = x.al /\ nports' = x.np
   /\ net' = (net \ consumed) \cup x.pkts
   /\ nsent' = nsent + Len(msgs)
 
@@ -170,13 +187,18 @@ Route(p) ==   \* -> [to, why]
   ELSE [to |-> "-", why |-> "no-host"]
 
 (* -------------------------------------- overlay layer ----------------------------------------- *)
+(* the address under which h is reachable from outside its NAT right now *)
+Pub(h) == IF natOf[h] = "-" THEN sock[h]
+          ELSE LET ms == {m \in mapping[natOf[h]] : m.int = sock[h]}
+               IN IF ms = {} THEN Zero ELSE <<extip[natOf[h]], (CHOOSE m \in ms : TRUE).port>>
+
 IsPeer(h, k)  == \E r \in peers[h] : r.k = k
 PeerOf(h, k)  == CHOOSE r \in peers[h] : r.k = k
 PeerAddrs(r)  == {r.addr} \cup (IF r.lan = Zero THEN {} ELSE {r.lan})
 IsOwnIp(h, ip) == ip = sock[h][1]             \* EndpointListener.address_is_lan: one of this machine's interfaces
 
 \* lazy_wrapper: a known peer gets add_address(source), otherwise a fresh Peer(key, source)
-Touch(h, k, src) == IF IsPeer(h, k) THEN [PeerOf(h, k) EXCEPT !.addr = src]
+Touch(h, k, src) == IF IsPeer(h, k) THEN (IF Refresh THEN [PeerOf(h, k) EXCEPT !.addr = src] ELSE PeerOf(h, k))
                     ELSE [k |-> k, addr |-> src, lan |-> Zero, ns |-> FALSE]
 
 \* Network.add_verified_peer for a peer that was not verified before
@@ -200,7 +222,9 @@ WalkableOf(kn, ps) == {x.a : x \in {y \in kn : y.by # ""}} \ UNION {PeerAddrs(r)
 Walkable(h) == WalkableOf(known[h], peers[h])
 
 (* walk_to(address) *)
-IReqMsg(h, dst, ns) == Msg(dst, "ireq", ns, dst, sock[h], wan[h], Zero, Zero, FALSE, gt[h] + 1)
+(* create_introduction_request: the identifier is the claimed global time reduced to the 16 bit of the wire field *)
+Ident(t) == IF Ident16 THEN t % 65536 ELSE t
+IReqMsg(h, dst, ns) == Msg(dst, "ireq", ns, dst, sock[h], wan[h], Zero, Zero, FALSE, Ident(gt[h] + 1))
 
 IsNewStyle(h, a) == \E x \in known[h] : x.a = a /\ x.ns
 
@@ -214,7 +238,7 @@ Contact(h) ==
           /\ Transmit(h, <<IReqMsg(h, PeerOf(h, "I").addr, PeerOf(h, "I").ns)>>, {})
   /\ gt' = [gt EXCEPT ![h] = @ + 1]
   /\ contacted' = [contacted EXCEPT ![h] = @ + 1]
-  /\ UNCHANGED <<topo, wan, peers, known, walked, intros, puncAsked>>
+  /\ UNCHANGED <<topo, wan, peers, known, walked, intros, puncAsked, stale, nrebind>>
 
 PunctureSettled == \A p \in net : p.kind \notin {"preq", "punc"}
 
@@ -226,7 +250,7 @@ IntroWalk(h, a) ==
   /\ Transmit(h, <<IReqMsg(h, a, IsNewStyle(h, a))>>, {})
   /\ gt' = [gt EXCEPT ![h] = @ + 1]
   /\ walked' = [walked EXCEPT ![h] = @ \cup {a}]
-  /\ UNCHANGED <<topo, wan, peers, known, contacted, intros, puncAsked>>
+  /\ UNCHANGED <<topo, wan, peers, known, contacted, intros, puncAsked, stale, nrebind>>
 
 Pkt(id) == CHOOSE p \in net : p.id = id
 
@@ -264,9 +288,11 @@ DeliverIReq(id) ==
                                      /\ UNCHANGED puncAsked
                              /\ intros' = IF h = "I"
                                           THEN intros \cup {[req |-> p.from, cand |-> c.k, reqaddr |-> r.addr,
-                                                             candaddr |-> c.addr]}
+                                                             candaddr |-> c.addr, ok |-> c.k \notin stale,
+                                                             cur |-> Pub(c.k)]}
                                           ELSE intros
-  /\ UNCHANGED <<topo, wan, contacted, walked>>
+        /\ stale' = IF h = "I" THEN stale \ {p.from} ELSE stale    \* "I" has seen where p.from is now
+  /\ UNCHANGED <<topo, wan, contacted, walked, nrebind>>
 
 (* on_introduction_response *)
 DeliverIResp(id) ==
@@ -289,7 +315,7 @@ DeliverIResp(id) ==
               /\ peers' = [peers EXCEPT ![h] = ps]
               /\ known' = [known EXCEPT ![h] = DiscoverAll(kn, vk, p.from, intr, p.ins)]
         /\ Transmit(h, <<>>, {p})
-  /\ UNCHANGED <<topo, gt, contacted, walked, intros, puncAsked>>
+  /\ UNCHANGED <<topo, gt, contacted, walked, intros, puncAsked, stale, nrebind>>
 
 (* on_puncture_request (unsigned: no peer is touched) *)
 DeliverPReq(id) ==
@@ -300,7 +326,7 @@ DeliverPReq(id) ==
         /\ LET target == IF p.swan[1] = wan[h][1] THEN p.slan ELSE p.swan
            IN Transmit(h, <<Msg(target, "punc", p.ns, Zero, sock[h], p.swan, Zero, Zero, FALSE, p.ident)>>, {p})
         /\ gt' = [gt EXCEPT ![h] = @ + 1]
-  /\ UNCHANGED <<topo, wan, peers, known, contacted, walked, intros, puncAsked>>
+  /\ UNCHANGED <<topo, wan, peers, known, contacted, walked, intros, puncAsked, stale, nrebind>>
 
 (* on_puncture: the handler does nothing, lazy_wrapper updates the address of a known sender *)
 DeliverPunc(id) ==
@@ -311,7 +337,7 @@ DeliverPunc(id) ==
         /\ peers' = [peers EXCEPT ![h] = IF IsPeer(h, p.from)
                                          THEN {x \in @ : x.k # p.from} \cup {Touch(h, p.from, p.src)} ELSE @]
         /\ Transmit(h, <<>>, {p})
-  /\ UNCHANGED <<topo, wan, known, gt, contacted, walked, intros, puncAsked>>
+  /\ UNCHANGED <<topo, wan, known, gt, contacted, walked, intros, puncAsked, stale, nrebind>>
 
 (* the network cannot deliver the datagram (NAT filter, private address, hair-pin) *)
 Lose(id, why) ==
@@ -319,10 +345,27 @@ Lose(id, why) ==
   /\ LET p == Pkt(id) IN
        /\ Route(p).to = "-" /\ Route(p).why = why
        /\ net' = net \ {p}
-  /\ UNCHANGED <<topo, wan, peers, known, gt, mapping, allowed, nsent, contacted, walked, intros, puncAsked>>
+  /\ UNCHANGED <<topo, wan, peers, known, gt, mapping, allowed, nsent, nports, contacted, walked, intros, puncAsked,
+                 stale, nrebind>>
 
 ScriptDone == \A h \in Hosts \ {"I"} : contacted[h] = contacts[h]
 AllWalked  == \A h \in Walkers : Walkable(h) \subseteq walked[h]
+(* History: the NAT in front of h loses h's mapping and its filter entries (router reboot, mapping expiry) while  *)
+(* the system is at rest (nothing in flight, every introduction followed up).  The next datagram of h leaves from *)
+(* a fresh external port; what others hold about h is out of date until h has contacted them again.              *)
+Rebind(h) ==
+  /\ nrebind < MaxRebinds
+  /\ h \in Hosts /\ natOf[h] # "-"
+  /\ net = {} /\ AllWalked
+  /\ LET n  == natOf[h]
+         ms == {m \in mapping[n] : m.int = sock[h]}
+     IN /\ ms # {}
+        /\ mapping' = [mapping EXCEPT ![n] = @ \ ms]
+        /\ allowed' = [allowed EXCEPT ![n] = {x \in @ : x.port \notin {m.port : m \in ms}}]
+  /\ stale' = stale \cup {h}
+  /\ nrebind' = nrebind + 1
+  /\ UNCHANGED <<topo, wan, peers, known, gt, net, nsent, nports, contacted, walked, intros, puncAsked>>
+
 (* every behaviour ends here: TLC's deadlock check reports any other terminal state *)
 Idle == net = {} /\ ScriptDone /\ AllWalked /\ UNCHANGED vars
 
@@ -330,7 +373,7 @@ Idle == net = {} /\ ScriptDone /\ AllWalked /\ UNCHANGED vars
 AllHosts == {"I", "A"} \cup {Names[i] : i \in 1..K}
 AllIps   == {IpPub[h] : h \in AllHosts} \cup {IpExt[h] : h \in AllHosts \ {"I"}}
             \cup {LanOwn[h] : h \in AllHosts \ {"I"}} \cup {LanInA[h] : h \in AllHosts \ {"I", "A"}}
-AllPorts == {Port[h] : h \in AllHosts} \cup (PortBase .. PortBase + K + 1)
+AllPorts == {Port[h] : h \in AllHosts} \cup (PortBase .. PortBase + K + 1 + MaxRebinds)
 AllAddrs == AllIps \X AllPorts
 
 Next == \/ \E h \in AllHosts : Contact(h)
@@ -340,6 +383,7 @@ Next == \/ \E h \in AllHosts : Contact(h)
         \/ \E id \in 1..MaxId : DeliverPReq(id)
         \/ \E id \in 1..MaxId : DeliverPunc(id)
         \/ \E id \in 1..MaxId, why \in Whys : Lose(id, why)
+        \/ \E h \in AllHosts : Rebind(h)
         \/ Idle
 
 Spec == Init /\ [][Next]_vars
@@ -352,6 +396,7 @@ TypeOK ==
   /\ \A n \in Nats : /\ Cardinality({m.int : m \in mapping[n]}) = Cardinality(mapping[n])
                      /\ Cardinality({m.port : m \in mapping[n]}) = Cardinality(mapping[n])
                      /\ \A x \in allowed[n] : \E m \in mapping[n] : m.port = x.port
+  /\ \A n \in Nats : \A m \in mapping[n] : m.port < PortBase + nports[n]
   /\ \A p \in net : p.id \in 1..nsent
 
 Quiet     == net = {}
@@ -359,8 +404,18 @@ Done      == Quiet /\ AllWalked
 SameNat(a, b) == natOf[a] # "-" /\ natOf[a] = natOf[b]
 Mutual(a, b)  == IsPeer(a, b) /\ IsPeer(b, a)
 
-(* C13: the introduced peer and the requester end up as verified peers of each other *)
-Reach == Done => \A i \in intros : i.req \in Walkers => Mutual(i.req, i.cand)
+(* C13: the introduced peer and the requester end up as verified peers of each other.  i.ok: when it was handed  *)
+(* out, the introduced peer had registered at the introducer from the mapping it had at that time.               *)
+Reach == Done => \A i \in intros : (i.req \in Walkers /\ i.ok) => Mutual(i.req, i.cand)
+(* C13: "the addresses it hands out are the ones that work" - an introduced peer that registered from its present *)
+(* mapping is handed out at that mapping, and that is where the requester holds it after its contact attempt      *)
+(* (i.cur: where the introduced peer was reachable when it was handed out)                                        *)
+HandsOutCurrent == \A i \in intros : i.ok => i.candaddr = i.cur
+HoldsWorking == Done => \A i \in intros :
+                  (i.req \in Walkers /\ i.ok /\ i.cur = Pub(i.cand) /\ ~SameNat(i.req, i.cand)
+                   /\ IsPeer(i.req, i.cand)) => PeerOf(i.req, i.cand).addr = Pub(i.cand)
+(* the identifier field of every message is 16 bit wide on the wire (new-style payloads do not reduce it) *)
+IdentFits == \A p \in net : p.ident \in 0..65535
 (* C13: peers behind the same NAT connect over their LAN addresses *)
 LanMeet == Done => \A i \in intros :
              (i.req \in Walkers /\ SameNat(i.req, i.cand) /\ Mutual(i.req, i.cand)) =>
